@@ -342,3 +342,46 @@ pub fn probe<T>(f: impl FnOnce() -> T) -> Result<T, ()> {
     IN_PROBE.with(|p| p.set(false));
     r.map_err(|_| ())
 }
+
+
+/// Base58 (bitcoin alphabet), as used for libp2p peer ids.
+pub fn base58(data: &[u8]) -> String {
+    const ALPHABET: &[u8] = b"123456789ABCDEFGHJKLMNPQRSTUVWXYZabcdefghijkmnopqrstuvwxyz";
+    let zeros = data.iter().take_while(|b| **b == 0).count();
+    let mut digits: Vec<u8> = Vec::new();
+    for &byte in data {
+        let mut carry = byte as u32;
+        for d in digits.iter_mut() {
+            carry += (*d as u32) << 8;
+            *d = (carry % 58) as u8;
+            carry /= 58;
+        }
+        while carry > 0 {
+            digits.push((carry % 58) as u8);
+            carry /= 58;
+        }
+    }
+    let mut out = String::new();
+    for _ in 0..zeros {
+        out.push('1');
+    }
+    for d in digits.iter().rev() {
+        out.push(ALPHABET[*d as usize] as char);
+    }
+    out
+}
+
+/// The multiaddr a user would type for a node known only by key and socket: ip, udp port and the
+/// libp2p peer id of a secp256k1 key (identity multihash of the protobuf-encoded public key).
+pub fn multiaddr_of(compressed_pubkey: &[u8], addr: &std::net::SocketAddr) -> String {
+    assert_eq!(compressed_pubkey.len(), 33);
+    let mut pb = vec![0x08u8, 0x02, 0x12, 0x21];
+    pb.extend_from_slice(compressed_pubkey);
+    let mut mh = vec![0x00u8, pb.len() as u8];
+    mh.extend_from_slice(&pb);
+    let ip = match addr.ip() {
+        std::net::IpAddr::V4(a) => format!("/ip4/{a}"),
+        std::net::IpAddr::V6(a) => format!("/ip6/{a}"),
+    };
+    format!("{ip}/udp/{}/p2p/{}", addr.port(), base58(&mh))
+}
